@@ -303,6 +303,33 @@ def skip_range_stream(rep, tier, seed):
             if rep.violation("skipped_code_reported:nested_%s" % name, {"input": text, "out": r["out"], "entries": r["entries"], "skipped": r.get("skipped")},
                              "a line of skip-marked code (%s) is reported: line(s) %r" % (name, hit)):
                 found += 1
+    # skip-marked STATEMENTS with several attributes, the last one spanning several lines: the lines of the attributes above the
+    # statement are emitted verbatim but are NOT skip-marked code (the recorded range starts where the last attribute ends), so a
+    # wide or blank-ended line among them is reported; the statement's own lines are not
+    WA = "a" * 70
+    for si, (stmt_kind, stmt) in enumerate([("let", ["let  x  =  [1,2,", "        %s];" % ("s" * 70)]), ("expr", ["call_it( 1,2,", "        %s );" % ("s" * 70)]),
+                                              ("macro", ["mac!( 1,2,", "        %s );" % ("s" * 70)])]):
+        for ai, attrs in enumerate([["#[cfg(any(", "    feature = %s," % WA, "    unix   ", "))]"],
+                                    ["#[allow(unused)]", "#[cfg(any(", "    feature = %s," % WA, "    unix   ", "))]"],
+                                    ["#[cfg(any(", "    feature = %s," % WA, "))]", "#[allow(", "    unused   ", ")]"]]):
+            for _once in (0,):
+                al = ["#[rustfmt::skip]"] + attrs
+                body = ["fn outer() {", "    first();"] + ["    " + l for l in al] + ["    " + l for l in stmt] + ["    last();", "}"]
+                text = "\n".join(body) + "\n"
+                c = {"text": text, "config": [["max_width", "60"], ["error_on_line_overflow", "true"]], "again": False, "lex": False, "entries": True}
+                r = common.run_vh_pool("pool", [c], per_case_timeout=15)[0]
+                if not isinstance(r, dict) or r.get("out") is None or r.get("entries") is None or r["out"] != text:
+                    continue
+                last_attr_end = 2 + len(al)                    # 1-based line of the last line of the last attribute
+                reported = set(e[0] for e in r["entries"] if e[1] in (0, 1))
+                must = [i + 1 for i, l in enumerate(body) if 2 < i + 1 < last_attr_end and (len(l) > 60 or l != l.rstrip())]
+                mustnot = [i + 1 for i, l in enumerate(body) if last_attr_end < i + 1 <= last_attr_end + len(stmt)]
+                miss = [l for l in must if l not in reported]
+                extra = [l for l in mustnot if l in reported]
+                if miss or extra:
+                    if rep.violation("skipped_stmt_attr_lines:%s.%d" % (stmt_kind, ai), {"input": text, "entries": r["entries"], "skipped": r.get("skipped"), "not_reported": miss, "reported_inside": extra},
+                                     "a skip-marked %s statement under a multi-line attribute: offending attribute lines %r are not reported / statement lines %r are reported" % (stmt_kind, miss, extra)):
+                        found += 1
     if exprs:
         vals = common.run_coq_cases("From V Require Import Base.Text C07.Model C07.Run.\nOpen Scope N_scope.", "", exprs, "c07skip", per_file=200)
         bad = 0
